@@ -554,6 +554,91 @@ def replay_diagramize(ctx, rng, diagram, cls, witness):
     ctx.expect("diagramize-replays-wiring", same,
                got_offsets=lambda: safe_repr(getattr(result, "offsets", None)),
                got=lambda: safe_repr(result, 600), **witness)
+    # histories: the SAME signature object declares the function once more
+    # (and, when the boundary allows it, the wire-only function in between)
+    try:
+        between = None
+        if diagram.dom == diagram.cod and rng.random() < .5:
+            between = decorator(lambda *wires: wires[0] if len(wires) == 1
+                                and style else tuple(wires))
+        again = decorator(body)
+    except Exception as err:
+        ctx.fail("diagramize-replays-wiring", exception=type(err).__name__,
+                 message=str(err)[:300], history="same signature object used "
+                 "for a second declaration", **witness)
+        return
+    finally:
+        for box in unique:
+            box.__dict__.pop("_apply", None)
+    try:
+        same = bool(again == diagram) and list(again.offsets) == offsets\
+            and (between is None or (len(between.boxes) == 0
+                                     and between.dom == diagram.dom))
+    except Exception:
+        same = False
+    ctx.expect("diagramize-replays-wiring", same,
+               history="same signature object used for a second declaration",
+               got_offsets=lambda: safe_repr(getattr(again, "offsets", None)),
+               got=lambda: safe_repr(again, 600),
+               wire_only=lambda: safe_repr(between, 300), **witness)
+
+
+def tikz_text(diagram):
+    path = tmp_path("history.tikz")
+    if os.path.exists(path):
+        os.remove(path)
+    try:
+        diagram.draw(to_tikz=True, path=path)
+        with open(path) as file:
+            return file.read()
+    finally:
+        if os.path.exists(path):
+            os.remove(path)
+
+
+def restyle_history(ctx, rng, diagram, witness):
+    """
+    Histories on one diagram object: it has been drawn already; one of its
+    boxes is then restyled as a spider (the documented `draw_as_spider`
+    attribute) and the same diagram is drawn again.  Reference: a twin built
+    from fresh boxes that carry the style from the start; when the twin
+    renders, the restyled original must render to the same picture.
+    """
+    m = _S["monoidal"]
+    plain = [b for b in diagram.boxes if type(b) is m.Box
+             and not getattr(b, "draw_as_spider", False)]
+    if not plain or any(type(b) is not m.Box for b in diagram.boxes):
+        return
+    chosen = plain[rng.randrange(len(plain))]
+    fresh = {}
+    for box in diagram.boxes:
+        if id(box) not in fresh:
+            params = {"draw_as_spider": True} if box is chosen else {}
+            fresh[id(box)] = m.Box(box.name, box.dom, box.cod, data=box.data,
+                                   _dagger=box.is_dagger, **params)
+    twin = m.Diagram(diagram.dom, diagram.cod,
+                     [fresh[id(b)] for b in diagram.boxes], list(diagram.offsets))
+    try:
+        reference = tikz_text(twin)
+    except Exception as err:
+        ctx.count("restyle_twin_does_not_render:" + type(err).__name__)
+        return
+    witness = dict(witness, history="drawn, one box restyled as a spider, "
+                   "drawn again", restyled=safe_repr(chosen, 100))
+    chosen.draw_as_spider = True
+    try:
+        text = tikz_text(diagram)
+        ctx.expect("tikz-renders", text == reference,
+                   problem="picture differs from the one of a diagram built "
+                   "with the styled box from the start", **witness)
+        if rng.random() < .2:
+            render_matplotlib(ctx, diagram, witness)
+    except Exception as err:
+        ctx.fail("tikz-renders", exception=type(err).__name__,
+                 message=str(err)[:300], **witness)
+    finally:
+        del chosen.draw_as_spider
+    ctx.count("restyle_histories")
 
 
 def diagramize_refusals(ctx, rng):
@@ -606,6 +691,8 @@ def examine(rng, ctx, diagram, cls, theme=None, replay=False):
         ctx.count("empty_diagram_not_rendered")
     if replay:
         replay_diagramize(ctx, rng, diagram, cls, witness)
+    if cls == "monoidal" and has_wire_or_box(diagram) and rng.random() < .3:
+        restyle_history(ctx, rng, diagram, witness)
     if len(diagram.boxes) >= 2:
         ctx.mark("{}|{}|{}|{}".format(
             cls, len(diagram.dom), list(diagram.offsets),
